@@ -59,6 +59,11 @@ def gen_cases(tier, seed):
             for l in [("molar", "mmol"), ("fraction", None), ("percent", None), ("volume_gas", "cm3")]:
                 yield {"kind": "edges", "group": "material", "from": list(a), "loading": list(l), "ads": ads, "T": T, "seed": r.randrange(1 << 30)}
     yield {"kind": "edges", "group": "temperature", "ads": "nitrogen", "T": 77.355, "seed": 1}
+    # the same material edges for an adsorbate about which nothing is known (no backend, no stored constants): every conversion that
+    # needs a constant must be refused and leave the isotherm exactly as it was
+    for a in RU.MATERIAL_REPR:
+        for l in [("fraction", None), ("percent", None), ("molar", "mmol")]:
+            yield {"kind": "edges", "group": "material", "from": list(a), "loading": list(l), "ads": "verif-custom-gas", "T": 300.0, "seed": r.randrange(1 << 30)}
     # ---- histories
     n = 250 if tier == "quick" else 20000
     for i in range(n):
@@ -255,7 +260,7 @@ def _possible(model, target_units):
 def _run_edges(case, ctx):
     r = gen.rng(case["seed"], "e")
     ads, T = case["ads"], case["T"]
-    fl = RU.fluid(gen.backend_of(ads))
+    fl = None if ads == "verif-custom-gas" else RU.fluid(gen.backend_of(ads))
     mp = gen.material_props(r)
     group = case["group"]
     if group == "temperature":
